@@ -424,7 +424,7 @@ func c14Check(in c14Input) string {
 var c14Files = []string{"a.fga", "b.fga", "dir/c.fga", "my file.fga", "x #1.fga", "ü/ñ.fga", "a, file: b.fga", "z.fga", "", "a", "a.f", "dir/c", "dir-c.fga", "A.fga"}
 
 func c14Draw(rt *rapid.T) c14Input {
-	m := gen.DSLModel(rt, gen.DSLOpts{Rich: rapid.Bool().Draw(rt, "rich"), Conditions: true, MultiLine: true, MaxTypes: 5, MaxRels: 5})
+	m := gen.DSLModel(rt, gen.DSLOpts{Rich: rapid.Bool().Draw(rt, "rich"), Conditions: true, MultiLine: true, MaxTypes: 5, MaxRels: 5, Scale: true})
 	if rapid.IntRange(0, 7).Draw(rt, "bigType") == 0 {
 		// a type with 13..40 relations whose names do not come grouped (sorts that are only stable, or only correct,
 		// below a size threshold), and many conditions with many parameters
